@@ -149,7 +149,7 @@ def _build_atoms(K, closure):
             else:
                 if isinstance(phi, CTLS.AtomicProposition):
                     for atom in A:
-                        if phi in K.labels(atom.state):
+                        if phi.name in K.labels(atom.state):
                             atom.add(phi)
                         else:
                             atom.add(neg_phi)
